@@ -298,3 +298,90 @@ Proof.
       rewrite <- Hq. replace (firstn (j + length (r_out r)) C) with O'; [exact HB'|].
       rewrite HCy, <- HO'len. symmetry. apply firstn_app_exact.
 Qed.
+
+(* ---- LZ4F_readOpen: LZ4F_getFrameInfo on the first min(19, file size) bytes ---- *)
+Lemma parse_desc_consumes rest d tl :
+  parse_desc rest = Some (d, tl) -> (length tl + 3 <= length rest <= length tl + 15)%nat.
+Proof.
+  intro H. destruct rest as [|flg [|bd r]]; try discriminate H.
+  rewrite parse_desc_factor in H.
+  destruct (spec_flags flg bd) as [[[[[[indep bcrc] csz] ccrc] did] bsid]|]; [|discriminate].
+  destruct (take _ r) as [[cs r1]|] eqn:T1; [|discriminate].
+  destruct (take _ r1) as [[di r2]|] eqn:T2; [|discriminate].
+  destruct r2 as [|hc r3]; [discriminate|]. destruct (hc =? header_checksum _); [|discriminate]. inversion H; subst.
+  destruct (take_length _ _ _ _ T1) as [_ L1]. destruct (take_length _ _ _ _ T2) as [_ L2].
+  simpl length in *. destruct (csz =? 1); destruct (did =? 1); lia.
+Qed.
+
+Lemma bsid_buf id m : bsid_size id = Some m -> bufsize_of_bsid id <> None.
+Proof.
+  unfold bsid_size, bufsize_of_bsid, C10_bsid_default, C10_bsid_64KB, C10_bsid_256KB, C10_bsid_1MB, C10_bsid_4MB.
+  destruct (id =? 4) eqn:E4; [apply Z.eqb_eq in E4; subst; discriminate|].
+  destruct (id =? 5) eqn:E5; [apply Z.eqb_eq in E5; subst; discriminate|].
+  destruct (id =? 6) eqn:E6; [apply Z.eqb_eq in E6; subst; discriminate|].
+  destruct (id =? 7) eqn:E7; [apply Z.eqb_eq in E7; subst; discriminate|]. discriminate.
+Qed.
+
+Lemma fd_open F C :
+  frame_decode spec_decode false [] F = Some (C, []) -> bytes_ok F = true ->
+  (OPEN_MIN <= length F)%nat /\
+  exists bsid h d1,
+    fd_info dctx_init (firstn HEADER_MAX F) = (FOk (bsid, h), d1) /\
+    (h <= Nat.min HEADER_MAX (length F))%nat /\ (h < length F)%nat /\
+    bufsize_of_bsid bsid <> None /\ fd_pos F d1 h 0.
+Proof.
+  intros HV Hb. assert (HV0 := HV). unfold frame_decode in HV.
+  destruct (take 4 F) as [[mg r0]|] eqn:T; [|discriminate HV].
+  destruct (le_val mg =? MAGIC) eqn:EM; [|discriminate HV]. apply Z.eqb_eq in EM.
+  destruct (parse_desc r0) as [[d r1]|] eqn:PD; [|discriminate HV].
+  destruct (bsid_size (f_bsid d)) as [maxb|] eqn:EB; [|discriminate HV].
+  destruct (take_length _ _ _ _ T) as [L4 _]. pose proof (take_app_split _ _ _ _ T) as HF.
+  destruct mg as [|m0 [|m1 [|m2 [|m3 [|]]]]]; try (simpl in L4; lia). clear L4.
+  assert (Hm : le_val [m0; m1; m2; m3] = FD_MAGICNUMBER) by (rewrite EM; reflexivity).
+  destruct (parse_desc_repl _ _ _ PD) as (pre0 & Hr0 & Hrepl).
+  pose proof (parse_desc_consumes _ _ _ PD) as Hlen. rewrite Hr0, app_length in Hlen.
+  assert (H4 : 4 <= zlen r1) by (eapply (need_header spec_decode []); exists (S (length r1)); exact HV).
+  rewrite zlen_len in H4.
+  assert (HlF : length F = (4 + length pre0 + length r1)%nat) by (rewrite HF, Hr0; simpl; rewrite app_length; lia).
+  assert (Hbr0 : bytes_ok r0 = true).
+  { rewrite HF in Hb. unfold bytes_ok in *. simpl in Hb. do 4 (apply andb_prop in Hb; destruct Hb as [_ Hb]). exact Hb. }
+  assert (Hbpre : bytes_ok pre0 = true) by (rewrite Hr0, bytes_ok_app in Hbr0; apply andb_prop in Hbr0; apply Hbr0).
+  split; [unfold OPEN_MIN, LZ4F_HEADER_SIZE_MIN, C10_ENDMARK_SIZE; lia|].
+  (* what LZ4F_readOpen hands to LZ4F_getFrameInfo *)
+  set (g := firstn (15 - length pre0) r1).
+  assert (Hsrc : firstn HEADER_MAX F = m0 :: m1 :: m2 :: m3 :: (pre0 ++ g)).
+  { rewrite HF, Hr0. unfold HEADER_MAX, LZ4F_HEADER_SIZE_MAX. change (Z.to_nat 19) with 19%nat.
+    change (firstn 19 ([m0; m1; m2; m3] ++ pre0 ++ r1)) with (m0 :: m1 :: m2 :: m3 :: firstn 15 (pre0 ++ r1)).
+    rewrite firstn_app. rewrite (firstn_all2 (n := 15%nat) pre0) by lia. reflexivity. }
+  assert (Hbg : bytes_ok (pre0 ++ g) = true).
+  { rewrite bytes_ok_app, Hbpre. cbn [andb]. unfold g. apply bytes_ok_firstn.
+    rewrite Hr0, bytes_ok_app in Hbr0. apply andb_prop in Hbr0. apply Hbr0. }
+  destruct (getFrameInfo_header spec_decode dctx_init m0 m1 m2 m3 (pre0 ++ g) d g eq_refl Hbg Hm (Hrepl g)) as [GI HS].
+  pose proof (getFrameInfo_ok spec_decode dctx_init (m0 :: m1 :: m2 :: m3 :: pre0 ++ g) wf_init) as GO.
+  rewrite GI in GO. cbn [i_ret i_fuel i_consumed] in GO. destruct GO as (_ & _ & _ & GW).
+  assert (Wd : wf (accept_state dctx_init d)) by (destruct GW as [GW|GW]; [unfold FD_BHSize in GW; lia|exact GW]).
+  assert (Hh : headerSize false (m0 :: m1 :: m2 :: m3 :: pre0 ++ g) = Z.of_nat (4 + length pre0)).
+  { rewrite HS. unfold zlen. simpl length. rewrite app_length. lia. }
+  exists (f_bsid d), (4 + length pre0)%nat, (accept_state dctx_init d).
+  split.
+  { unfold fd_info. rewrite Hsrc, GI. cbn [i_fuel i_ret i_info i_consumed].
+    replace (FD_BHSize <? 0) with false by reflexivity. rewrite Hh, Nat2Z.id.
+    unfold fi_of_desc. cbn [fi_blockSizeID]. reflexivity. }
+  split; [unfold HEADER_MAX, LZ4F_HEADER_SIZE_MAX; change (Z.to_nat 19) with 19%nat; lia|].
+  split; [lia|]. split; [eapply bsid_buf; exact EB|].
+  exists C. split; [exact HV0|]. split; [exact Hb|]. split; [lia|]. split; [lia|]. split; [intro; lia|].
+  intros _. split; [exact Wd|]. left.
+  (* the context is where LZ4F_decompress would be after the header *)
+  set (hd := m0 :: m1 :: m2 :: m3 :: pre0).
+  assert (Hhd : firstn (4 + length pre0) F = hd).
+  { rewrite HF, Hr0. cbn [app Nat.add firstn]. unfold hd. do 4 f_equal. apply firstn_app_exact. }
+  assert (Hbhd : bytes_ok hd = true).
+  { unfold hd. rewrite HF in Hb. unfold bytes_ok in *. simpl in Hb. simpl.
+    do 4 (apply andb_prop in Hb; let Hx := fresh in destruct Hb as [Hx Hb]; rewrite Hx; cbn [andb]). exact Hbpre. }
+  assert (H7 : FD_minFHSize <= zlen hd) by (unfold hd, zlen, FD_minFHSize; simpl length; lia).
+  pose proof (decodeHeader_iff dctx_init false m0 m1 m2 m3 pre0 Hbpre Hm H7) as DI.
+  pose proof (Hrepl []) as P0. rewrite app_nil_r in P0. rewrite P0 in DI. destruct DI as [DI _].
+  pose proof (accept_CInv spec_decode false [] false dctx_init hd _ _ Hbhd H7 DI) as AC.
+  rewrite Hhd. rewrite <- (ztake_all (zlen hd - zlen []) hd) at 1 by (unfold zlen; simpl length; lia).
+  apply AC; try reflexivity; try discriminate; try (unfold zlen; simpl length; lia); try apply accept_state_fields.
+Qed.
